@@ -77,16 +77,19 @@ func (e *Engine) verifyFunction(fn *ssa.Function, impl *Contract) (un *Unit, err
 		f.vals[p] = Val{T: v, Go: p.Type()}
 		un.assume(&st, un.typeFacts(p.Type(), v, &st, 0))
 		env[p.Name()] = f.vals[p]
+		un.assumeReceivedContext(&st, p.Type(), v)
 	}
 	for _, fv := range fn.FreeVars {
 		v := un.fresh("fv_"+fv.Name(), un.u.SortOf(fv.Type()))
 		f.vals[fv] = Val{T: v, Go: fv.Type()}
 		un.assume(&st, un.typeFacts(fv.Type(), v, &st, 0))
+		un.assumeReceivedContext(&st, fv.Type(), v)
 		if pt, ok := fv.Type().Underlying().(*types.Pointer); ok {
 			un.assume(&st, Neq(v, IntLit(0)))
 			lv := un.lvOfPointer(v, fv.Type())
 			cur := un.readLV(lv, &st)
 			un.assume(&st, un.typeFacts(pt.Elem(), cur, &st, 0))
+			un.assumeReceivedContext(&st, pt.Elem(), cur)
 		}
 	}
 	if impl != nil {
@@ -442,4 +445,25 @@ func (f *Frame) emitAxioms() {
 			un.decls = append(un.decls, "(assert "+t.S+")")
 		}()
 	}
+}
+
+// A-LOGGER, narrowed: a context.Context that a function *receives* (parameter, captured variable) carries the broker's logger
+// (cmd/wasp stores it before anything runs and every derived context inherits it). Contexts the function makes itself are not
+// covered by the assumption: context.Background() carries none, the With* constructors inherit from their parent, StoreLogger
+// adds it (specs/00_std.spec), and L(ctx) requires it -- so logging through a context made from Background() is an obligation
+// that fails.
+func (un *Unit) assumeReceivedContext(st *State, t types.Type, v Term) {
+	if !isContextType(t) {
+		return
+	}
+	if _, ok := un.eng.specFuns["has_logger"]; !ok {
+		return
+	}
+	un.eng.declareUF("has_logger", []Sort{v.Sort}, SBool)
+	un.assume(st, mk(SBool, "uf_has_logger", v))
+}
+
+func isContextType(t types.Type) bool {
+	n, ok := t.(*types.Named)
+	return ok && n.Obj().Pkg() != nil && n.Obj().Pkg().Path() == "context" && n.Obj().Name() == "Context"
 }
